@@ -871,8 +871,15 @@ class Context:
         string_constructor = JSCallableObject(string_call)
 
         def fromCharCode_fn(*args):
-            """String.fromCharCode - create string from char codes."""
-            return "".join(chr(int(to_number(arg))) for arg in args)
+            """String.fromCharCode - create string from char codes (ToUint16 of each argument)."""
+
+            def to_uint16(arg):
+                n = to_number(arg)
+                if isinstance(n, float) and (math.isnan(n) or math.isinf(n)):
+                    return 0
+                return int(n) & 0xFFFF
+
+            return "".join(chr(to_uint16(arg)) for arg in args)
 
         string_constructor.set("fromCharCode", fromCharCode_fn)
 
